@@ -190,8 +190,10 @@ def judge(log, table, mps):
             by_rq[-1][1].append(rec)
         else:
             by_rq.append((rec["rq"], [rec]))
+    prev_key = None
     for rq, recs in by_rq:
-        key = (rq["type"], rq["index"])
+        key, prev_key, prev = (rq["type"], rq["index"]), None, prev_key
+        prev_key = key
         wl = rq["wlen"]
         what = f"GET_DESCRIPTOR type {key[0]} index {key[1]} wLength {wl} mps {mps}"
         if key not in table:
@@ -210,8 +212,10 @@ def judge(log, table, mps):
         labels.add("present")
         if any(r["stalled"] for r in recs):
             r = next(r for r in recs if r["stalled"])
-            return fail(f"{what}: existing descriptor (len {L}) stalled at position {r['pos']} (cycle {r['stalled'][0]})",
-                        signature="stall-for-existing-descriptor"), labels, False
+            return fail(f"{what}: existing descriptor (len {L}) stalled at position {r['pos']} (cycle {r['stalled'][0]}, "
+                        f"start pulse in cycle {r['t']}; previous request {prev})",
+                        signature="stall-for-existing-descriptor",
+                        labels=(key, prev, r["stalled"][0] == r["t"] and r is recs[0])), labels, False
         got = []
         for r in recs:
             pos = r["pos"]
@@ -272,6 +276,11 @@ def classify(res, kind, spec, where):
         # StandardRequestHandler gives the runtime (distributed) half its own automatic language descriptor, so a
         # collection that defines STRING 0 itself has two responders for it
         sig = "mux-language-descriptor-answered-twice"
+    if (kind == "mux" and res.signature == "stall-for-existing-descriptor" and key not in runtime_keys
+            and len(res.labels) == 3 and res.labels[1] in runtime_keys and res.labels[2]):
+        # the block half's stall latch of the previous (runtime-descriptor) request is still set in the start cycle,
+        # in which the distributed half stalls combinationally
+        sig = "mux-stale-stall-latch"
     res.signature = sig
     res.labels = ()
     res.msg = f"[{kind} handler, {where}] " + res.msg
